@@ -171,6 +171,9 @@ func runL1(prop, tier, solver string, seed int) (*eng.Evidence, int) {
 		if r.Vacuous {
 			inconclusive = append(inconclusive, fmt.Sprintf("cube %s (%s): vacuity witness unsatisfiable", r.ID, r.Cube))
 		}
+		if r.Discharged != r.Obligations && len(r.Violations) == 0 && !r.Inconcl {
+			inconclusive = append(inconclusive, fmt.Sprintf("cube %s (%s): only %d of %d obligations discharged", r.ID, r.Cube, r.Discharged, r.Obligations))
+		}
 		for _, v := range r.Violations {
 			if v.Prop != prop {
 				continue
@@ -179,7 +182,11 @@ func runL1(prop, tier, solver string, seed int) (*eng.Evidence, int) {
 				_ = res
 				continue
 			}
-			path, err := eng.WriteReplayL1(filepath.Join(verifDir, "replay"), v, 30000)
+			budget := 30000
+			if prop == "C12" {
+				budget = 8000 // the race detector reports as soon as the racy pair executes
+			}
+			path, err := eng.WriteReplayL1(filepath.Join(verifDir, "replay"), v, budget)
 			if err != nil {
 				inconclusive = append(inconclusive, "cannot write replay: "+err.Error())
 				continue
